@@ -1100,6 +1100,12 @@ pub fn explore_subject(ctx: &Ctx, cons: &ckb_chain_spec::consensus::Consensus, s
     }
     local.count("family_S_schedules", stats.schedules - if root_is_mine { 0 } else { 1 });
     local.max_counter("max_family_S_points_per_schedule", stats.max_points as u64);
+    if !stats.divergences.is_empty() {
+        local.count("family_S_replays_rerun_after_a_divergence", stats.divergences.len() as u64);
+        for d in stats.divergences.iter().take(2) {
+            local.notes.push(format!("family {fam}: replay divergence (schedule re-run): {}", d.chars().take(900).collect::<String>()));
+        }
+    }
     local.max_counter("max_family_S_distinct_end_states_of_one_case", ends.len() as u64);
     if stats.capped {
         local.cap_hit = Some(format!("family {fam}: schedule cap reached for {}", sub.label));
@@ -1119,7 +1125,11 @@ fn run_sched_case(ctx: &Ctx, u: &mut TreeUniverse, sc: &SchedCase, case_idx: u64
 pub fn run_sched(ctx: &Ctx, u: &mut TreeUniverse, report: &mut Report, monitor: CutMonitor, only_prefix: Option<&str>) {
     let all = sched_cases(ctx.tier);
     let t_s = std::time::Instant::now();
+    let only_idx: Option<usize> = std::env::var("VERIF_S_CASE_IDX").ok().and_then(|v| v.parse().ok());
     for (idx, sc) in all.iter().enumerate() {
+        if only_idx.map(|o| o != idx).unwrap_or(false) {
+            continue;
+        }
         if ctx.out_of_time() {
             report.cap_hit = Some(format!("wall budget reached in family S at case {idx} of {}", all.len()));
             return;
